@@ -1,7 +1,6 @@
 import TaskModel.Vars.Compile
 /-!
-Lemmas about the layered resolution with the task directory pinned (`dirAfter = 3`, the
-code's value) and about the merged global layer.
+Lemmas about the layered resolution site by site and about the merged global layer.
 -/
 namespace TaskModel.Vars
 
@@ -34,36 +33,7 @@ theorem layersOf_split (defs : Site → Defs) (s : Site) :
 
 /-- the state `getVariables` is in when it reaches site `s` (started on an empty cache: the task alone) -/
 def stateBefore (w : World) (cx : Ctx) (base : Env) (defs : Site → Defs) (s : Site) : St :=
-  runLayers w cx ((sitesBefore s).map (lay defs)) 0 { td := none, env := base, cache := [] }
-
-/-- the task directory as `getVariables` resolves it: the `dir:` template over what the global env,
-global vars and include-statement layers resolved -/
-def resolvedTaskDir (w : World) (cx : Ctx) (base : Env) (defs : Site → Defs) : Str :=
-  joinDir cx.rootDir (render (stateBefore w cx base defs .includedTaskfileVars).env cx.taskDirTpl)
-
-/-- the directory in which the `sh:` definitions of site `s` run -/
-def siteDir (w : World) (cx : Ctx) (base : Env) (defs : Site → Defs) (s : Site) : Str :=
-  if s.inTaskDir then resolvedTaskDir w cx base defs else cx.rootDir
-
-theorem stateBefore_included_td (w : World) (cx : Ctx) (hcx : cx.dirAfter = 3) (base : Env) (defs : Site → Defs) :
-    (stateBefore w cx base defs .includedTaskfileVars).td = none := by
-  simp [stateBefore, sitesBefore, runLayers, stepLayer, tdNext, hcx]
-
-theorem stateBefore_task_td (w : World) (cx : Ctx) (hcx : cx.dirAfter = 3) (base : Env) (defs : Site → Defs) :
-    (stateBefore w cx base defs .taskVars).td = some (resolvedTaskDir w cx base defs) := by
-  simp [stateBefore, sitesBefore, runLayers, stepLayer, tdNext, hcx, resolvedTaskDir, lay]
-
-/-- the directory `stepLayer` uses for site `s` -/
-theorem layerDir_site (w : World) (cx : Ctx) (hcx : cx.dirAfter = 3) (base : Env) (defs : Site → Defs) (s : Site) :
-    layerDir cx (sitesBefore s).length (stateBefore w cx base defs s) (lay defs s) = siteDir w cx base defs s := by
-  cases s
-  case includedTaskfileVars =>
-    simp only [layerDir, lay, siteDir, Site.inTaskDir, if_true, tdNext, stateBefore_included_td w cx hcx base defs]
-    simp [sitesBefore, hcx, resolvedTaskDir]
-  case taskVars =>
-    simp only [layerDir, lay, siteDir, Site.inTaskDir, if_true, tdNext, stateBefore_task_td w cx hcx base defs]
-    simp
-  all_goals simp [layerDir, lay, siteDir, Site.inTaskDir]
+  runLayers w cx ((sitesBefore s).map (lay defs)) { env := base, cache := [] }
 
 /-! ### lookups in merged maps -/
 
